@@ -310,7 +310,10 @@ def run_history(h, fresh_oracle=True):
                 if s is not None:
                     for prev in h['ops'][:i]:
                         if slot_of(prev) == s:
-                            w2.do(prev)
+                            try:
+                                w2.do(prev)
+                            except Exception:  # noqa: BLE001
+                                pass            # as in the used run, where every operation is attempted on its own
                 r2 = w2.do(op)
             except Exception as ex:  # noqa: BLE001
                 r2 = 'PYERR ' + type(ex).__name__
